@@ -97,7 +97,7 @@ func runC18(c *RuleCtx) {
 				// same peer, same topic
 			}
 			haveTopic := lookupIn("topic handle exists", isFieldOf("PubSub.myTopics"))
-			cut := edgeCut(g.AtomEdges(absent, true), g.AtomEdges(haveTopic, false))
+			cut := g.CutAny(AtomWant{absent, true}, AtomWant{haveTopic, false})
 			ok, _ := g.MustPass(sp.After(), PassOpts{Cut: cut, Until: p.iterationUntil(f, mi.Stmt)}, func(n ast.Node) bool {
 				for _, j := range joins {
 					if contains(n, j) {
@@ -265,7 +265,7 @@ func runC18(c *RuleCtx) {
 		}
 		c.Check(nS == 1 && nD == 1, "R18.4", f.Name, "one store and one delete", f.Decl, "1/1", "unexpected number of writes to the event log")
 		// opposite event always cancels: paths with present && differs must delete
-		cut := edgeCut(g.AtomEdges(present, false), g.AtomEdges(differs, false))
+		cut := g.CutAny(AtomWant{present, false}, AtomWant{differs, false})
 		okc, _ := g.MustPass(g.Entry(), PassOpts{Cut: cut}, func(n ast.Node) bool { return isDeleteOf(p, f, n, "TopicEventHandler.evtLog") })
 		c.Check(okc, "R18.4", f.Name, "opposite event always cancels the pending one", f.Decl, "every path not refuting 'pending and different' deletes", "an opposite event can leave the pending one in place (reordering)")
 	}
